@@ -133,7 +133,8 @@ def run(c, chk):
             chk.ok('R19.2', fname, 'passes NULL as the inherited filter', nontrivial=False)
 
     # ---- R19.3 / R19.4 / R19.5 -------------------------------------------------------------------
-    paths = [p for p in ex.explore(op) if p.end == 'ret']
+    ex3 = sym.Explorer(c.modules, max_visits=4 if chk.tier == 'thorough' else 3, mod_sets=c.mod_sets, max_paths=200000)
+    paths = [p for p in ex3.explore(op) if p.end == 'ret']
     nested = 0
     nval = 0
     ncb = 0
